@@ -288,7 +288,7 @@ func TestDirConcurrent(t *testing.T) {
 	total := int64(0)
 	for round := 0; round < rounds; round++ {
 		fuse := round%3 == 2
-		e := newEnvWith(tr, envOptions{fuse: fuse})
+		e := newEnvWith(tr, envOptions{fuse: fuse, quiet: true})
 		tr.Emit(common.Ev{"ev": "reset", "trace": round, "mode": "concurrent", "fuse": fuse})
 		for _, n := range containerNames {
 			e.populate(e.mkdir(e.root, n))
